@@ -484,7 +484,15 @@ def make_exe(world, P, s, spec, exes, fp):
     if src is None:
         raise RuntimeError('source executable unavailable')
     if k == 'todict':
-        return Exe('todict', ExcelModel().from_dict(src.obj.to_dict()))
+        d = src.obj.to_dict()
+        if spec.get('json', True):
+            # "imported from JSON": through the text form, as the README does
+            import json
+            try:
+                d = json.loads(json.dumps(d))
+            except TypeError:
+                pass    # not serialisable as it stands: C09's business
+        return Exe('todict', ExcelModel().from_dict(d))
     if k == 'compile':
         ins = [P.rect_id(*cell_rect(world['cells'][i]))
                for i in spec['inputs']]
